@@ -385,8 +385,8 @@ impl Repr {
         if shift >= 1024 {
             // max f64 = 2^1024 × (1 − 2^−53)
             Inexact(sign * f64::INFINITY, sign)
-        } else if shift < -1074 - 53 {
-            // min f64 = 2^-1074, quotient has at most 53 bits
+        } else if shift < -1074 - 54 {
+            // min f64 = 2^-1074, quotient has at most 54 bits
             Inexact(sign * 0f64, -sign)
         } else {
             let (man, r) = num.unsigned_abs().div_rem(&den);
